@@ -31,6 +31,7 @@ type c15Entry struct {
 	Kind    string `json:"kind"`              // "dir", "file", "symlink"
 	Target  string `json:"target,omitempty"`  // link text of a symlink
 	NoMatch bool   `json:"nomatch,omitempty"` // file without a cnt call (nothing to patch)
+	LinkOf  string `json:"link_of,omitempty"` // a file that is another name (hard link) of this earlier file
 }
 
 type c15Case struct {
@@ -378,6 +379,11 @@ func evalC15(cs *c15Case) (sig, msg string, info c15Info) {
 		case "dir":
 			err = os.Mkdir(full, 0o755)
 		case "file":
+			if e.LinkOf != "" {
+				orig[e.Path] = orig[e.LinkOf]
+				err = os.Link(filepath.Join(root, filepath.FromSlash(e.LinkOf)), full)
+				break
+			}
 			c := c15Content(i, e.NoMatch)
 			orig[e.Path] = c
 			err = os.WriteFile(full, []byte(c), 0o644)
@@ -828,6 +834,30 @@ func c15Gen(rt *rapid.T) *c15Case {
 		p := fresh(par, name)
 		files = append(files, p)
 		cs.Entries = append(cs.Entries, c15Entry{Path: p, Kind: "file", NoMatch: rapid.IntRange(0, 9).Draw(rt, "nomatch") == 9})
+	}
+	// Hard links: a second name, with the same base name, in another directory.
+	if rapid.IntRange(0, 3).Draw(rt, "hardLinks") == 0 && len(dirs) > 1 {
+		nl := rapid.IntRange(1, 2).Draw(rt, "nHardLinks")
+		for i := 0; i < nl && len(files) > 0; i++ {
+			of := files[rapid.IntRange(0, len(files)-1).Draw(rt, "hardLinkOf")]
+			d := dirs[rapid.IntRange(0, len(dirs)-1).Draw(rt, "hardLinkDir")]
+			p := path.Join(d, path.Base(of))
+			taken := false
+			for _, e := range cs.Entries {
+				taken = taken || e.Path == p
+			}
+			if taken {
+				continue
+			}
+			nm := false
+			for _, e := range cs.Entries {
+				if e.Path == of {
+					nm = e.NoMatch
+				}
+			}
+			cs.Entries = append(cs.Entries, c15Entry{Path: p, Kind: "file", LinkOf: of, NoMatch: nm})
+			files = append(files, p)
+		}
 	}
 	// Symlinks.
 	var dirLinks []string
